@@ -115,6 +115,11 @@ def h_rw(ctx, op, lengths, bufs, windows=(1,), faults=0, kinds=(),
     addr = ctx.bv("addr", 32)
     ctx.assume(addr + n <= (1 << 32))
     t = ctx.bv("t", 32)
+    # the core the transfer is addressed to: any of the 18 (fault-free units)
+    P = 1
+    if not faults and not multi:
+        P = ctx.bv("core", 5)
+        ctx.assume(P <= 17)
     with patch:
         mc = MachineController("host", n_tries=2)
         mc._window_size = window
@@ -122,7 +127,7 @@ def h_rw(ctx, op, lengths, bufs, windows=(1,), faults=0, kinds=(),
         try:
             if op == "write":
                 payload = ctx.bytes("data", n)
-                r = mc.write(addr, payload, X, Y, 1)
+                r = mc.write(addr, payload, X, Y, P)
                 ctx.observe("write", r)
                 ctx.witness("wrote")
                 got = mem.load(t)
@@ -134,7 +139,7 @@ def h_rw(ctx, op, lengths, bufs, windows=(1,), faults=0, kinds=(),
                 prior = ctx.bytes("prior", 0 if faults else 3)
                 paddr = ctx.bv("paddr", 32)
                 mem.write(paddr, prior)
-                data = mc.read(addr, n, X, Y, 1)
+                data = mc.read(addr, n, X, Y, P)
                 ctx.observe("read", data)
                 ctx.witness("read")
                 ctx.prove(len(data) == n, "memory-read-wrong-length")
@@ -158,7 +163,7 @@ def h_rw(ctx, op, lengths, bufs, windows=(1,), faults=0, kinds=(),
             return
     ctx.prove(set(machine.memories) <= {(X, Y)}, "memory-other-chip-touched",
               repr(sorted(machine.memories)))
-    _check_commands(ctx, machine, buf, (2, 3), (X, Y, 1))
+    _check_commands(ctx, machine, buf, (2, 3), (X, Y, P))
 
 
 def h_rw_large(ctx, op, lengths, bufs):
